@@ -78,8 +78,8 @@ class InfrastructureError(RuntimeError):
 
 class BuildLock:
     def __enter__(self):
-        os.makedirs(os.path.join(VERIF, ".work"), exist_ok=True)
-        self.f = open(os.path.join(VERIF, ".work", "build.lock"), "w")
+        # one lock per Lean project directory (regenerating Gen/ and building must not interleave there)
+        self.f = open(os.path.join(LEAN, ".build.lock"), "w")
         fcntl.flock(self.f, fcntl.LOCK_EX)
         return self
 
